@@ -294,6 +294,24 @@ def isObserver : Kind → Bool
   | .observer _ => true
   | _ => false
 
+/-- the matchers hanging directly off a fallible node (before the branching injection) -/
+def matcherSuccs (g : Graph) (x : Nat) : List Nat :=
+  (g.succs x).filter (fun m => g.kind m == .okMatch || g.kind m == .errMatch)
+
+/-- what the splice and the injection expect of the graph the fixed point of `build_call_graph` hands
+    them: every edge joins two nodes; no observer or branching node yet; every error handler has a child
+    (its `IntoResponse`, not a matcher) and a `pavex::Error::new`; every fallible node has its two matchers;
+    one error handler per fallible node. -/
+def spliceReady (g : Graph) : Bool :=
+  g.edges.all (fun e => decide (e.src < g.size) && decide (e.dst < g.size)) &&
+  countKind g isObserver == 0 && countKind g (· == .branch) == 0 &&
+  (ehNodes g).all (fun x => decide (x < g.size) && (g.succs x).head?.isSome && (errorNewOf g x).isSome &&
+    (match (g.succs x).head? with
+     | some c => g.kind c != .errMatch
+     | none => true)) &&
+  (fallibleNodes g).all (fun x => (matcherSuccs g x).length == 2) &&
+  (ehNodes g).length == (fallibleNodes g).length
+
 /-- ↔ `enforce_invariants`. -/
 def invariantHolds (g : Graph) (nObs : Nat) : Bool :=
   countKind g isObserver == countKind g (· == .branch) * nObs
@@ -317,8 +335,10 @@ def observerId : Kind → Option Nat
     (specific) or by the one `pavex::Error::new`; the handler's single child is its `IntoResponse`;
     the observers, in order, each borrow the `pavex::Error`, are chained by happens-before edges and the
     last one happens before the `IntoResponse`; and every observer of the graph that borrows this
-    `pavex::Error` is in the chain. -/
-def armShape (g : Graph) (b : Nat) (hk : Kind) (obs : List Nat) : Bool :=
+    `pavex::Error` is in the chain. The conversion into `pavex::Error` is there exactly when somebody
+    consumes it: the handler (`upcast`: it works with `pavex::Error`) or an observer
+    (↔ `register_error_new_transformer` + the scope / observer filter of `build_call_graph`). -/
+def armShape (g : Graph) (b : Nat) (hk : Kind) (upcast : Bool) (obs : List Nat) : Bool :=
   match (g.succs b).filter (fun v => g.kind v == .errMatch) with
   | [m] =>
     let hs := (List.range g.size).filter (fun h => g.kind h == hk && isEh hk &&
@@ -332,7 +352,8 @@ def armShape (g : Graph) (b : Nat) (hk : Kind) (obs : List Nat) : Bool :=
         let enews := (g.succs m).filter (fun e => g.kind e == .errorNew)
         g.kind ir == .intoResponse &&
         chain.map (fun o => observerId (g.kind o)) == obs.map some &&
-        (obs.isEmpty || enews.length == 1) &&
+        enews.length == (if upcast || !obs.isEmpty then 1 else 0) &&
+        (if upcast then (g.dataPreds h).any enews.contains else (g.dataPreds h).contains m) &&
         chain.all (fun o => enews.all (fun e => (g.dataPreds o).contains e) && g.succs o != []) &&
         ((List.range g.size).filter (fun o => isUnit (g.kind o) &&
             (g.dataPreds o).any enews.contains)).all chain.contains
